@@ -58,6 +58,7 @@ func ruleYAMLTab(c *Ctx, r *Rep) {
 	info := p.TypesInfo
 	// premise from the dependency: the function that writes the block scalar hints decides on the first byte
 	depSeen, depHandlesTab := false, false
+	needChars := "\t"
 	packages.Visit(c.All, nil, func(dp *packages.Package) {
 		if dp.Types == nil || !isYAMLPkg(dp.Types) {
 			return
@@ -79,6 +80,11 @@ func ruleYAMLTab(c *Ctx, r *Rep) {
 						case "istab", "isblank", "isblankz":
 							depHandlesTab = true
 						}
+					}
+					// the indicator is the configured indent, not the indentation of the node: wrong for a block scalar that is
+					// a sequence entry unless the indent is 2 — so the texts that get an indicator need the screen as well
+					if sel, ok := m.(*ast.SelectorExpr); ok && strings.ToLower(strings.ReplaceAll(sel.Sel.Name, "_", "")) == "bestindent" {
+						needChars = "\t \n"
 					}
 					return true
 				})
@@ -126,7 +132,7 @@ func ruleYAMLTab(c *Ctx, r *Rep) {
 				return true
 			}
 			// a screen before the call, in one of the enclosing statement lists
-			screened, unclear := false, ""
+			screened, unclear, insufficient := false, "", ""
 			for i := len(stack) - 1; i >= 0; i-- {
 				var list []ast.Stmt
 				switch b := stack[i].(type) {
@@ -162,14 +168,26 @@ func ruleYAMLTab(c *Ctx, r *Rep) {
 					}
 					// which strings take the branch
 					tab, nl, other := false, false, false
+					covered := ""
 					ast.Inspect(ifs.Cond, func(q ast.Node) bool {
 						if e, ok := q.(ast.Expr); ok {
 							if s, ok := constString(info, e); ok {
+								if len(s) > 1 && strings.Trim(s, " \t\n\r") == "" {
+									// a set of leading characters, e.g. " \t\n"
+									covered += s
+									if strings.Contains(s, "\t") {
+										tab = true
+									}
+									return false
+								}
 								switch s {
 								case "\t":
 									tab = true
+									covered += s
 								case "\n":
 									nl = true
+								case " ":
+									covered += s
 								default:
 									if _, isLit := e.(*ast.BasicLit); isLit && info.Types[e].Value.Kind() == constant.String {
 										other = true
@@ -182,7 +200,14 @@ func ruleYAMLTab(c *Ctx, r *Rep) {
 					})
 					conj := splitAnd(ifs.Cond)
 					switch {
-					case tab && !other && len(conj) <= 2:
+					case tab && !other && len(conj) <= 2 && func() bool {
+						for _, ch := range needChars {
+							if !strings.ContainsRune(covered, ch) {
+								return false
+							}
+						}
+						return true
+					}():
 						// starts-with-tab, alone or together with has-a-newline
 						prefix := false
 						ast.Inspect(ifs.Cond, func(q ast.Node) bool {
@@ -203,6 +228,8 @@ func ruleYAMLTab(c *Ctx, r *Rep) {
 						} else {
 							unclear = c.Src(ifs.Cond)
 						}
+					case tab && !other && len(conj) <= 2:
+						insufficient = c.Src(ifs.Cond) // understood, and it leaves out leading characters that need the screen
 					case nl && !tab && !other && len(conj) == 1:
 						screened = true // every string of several lines is quoted
 					default:
@@ -211,12 +238,14 @@ func ruleYAMLTab(c *Ctx, r *Rep) {
 				}
 			}
 			switch {
+			case !screened && insufficient != "":
+				r.Bad(key, call.Pos(), "the screen `%s` before %s covers the tab but not every leading character that needs it (%q): a multi-line string that starts with a space or a line break gets an indentation indicator taken from the configured indent, which is wrong for a sequence entry unless the indent is 2 — `gojq -n --yaml-output --indent 4 '[\" a\\nb\"]'` cannot be read back by --yaml-input", insufficient, c.Src(call), needChars)
 			case screened:
 				r.OK(key, call.Pos(), "a string that starts with a tab (and has several lines) is given a quoted style and returned before %s is reached", c.Src(call))
 			case unclear != "":
 				r.Undecided(key, call.Pos(), "a branch before %s quotes some strings, but its condition `%s` is not one of the two understood screens (starts with a tab; has several lines)", c.Src(call), unclear)
 			default:
-				r.Bad(key, call.Pos(), "%s may be handed a Go string, and nothing before it quotes a string that starts with a tab: the encoder writes `\"\\t\\na\"` as a literal block without an indentation indicator (its emitter gives one only after a leading space or line break), which the decoder — --yaml-input, or the re-parse inside Node.Encode — rejects with `found a tab character where an indentation space is expected`", c.Src(call))
+				r.Bad(key, call.Pos(), "%s may be handed a Go string, and nothing before it quotes every multi-line string that starts with one of "+fmt.Sprintf("%q", needChars)+" (a space or line break gets an indentation indicator taken from the configured indent, wrong for a sequence entry unless the indent is 2: `--yaml-output --indent 4 '[\\\" a\\\\nb\\\"]'` cannot be read back); for the tab: the encoder writes `\"\\t\\na\"` as a literal block without an indentation indicator (its emitter gives one only after a leading space or line break), which the decoder — --yaml-input, or the re-parse inside Node.Encode — rejects with `found a tab character where an indentation space is expected`", c.Src(call))
 			}
 			return true
 		})
@@ -2297,4 +2326,114 @@ func derefNamedType(t types.Type) (*types.Named, bool) {
 	}
 	nt, ok := t.(*types.Named)
 	return nt, ok
+}
+
+// ---------------------------------------------------------------------------------------------------------------------
+// R-C15-encoderparams, R-C15-haltstring
+
+func init() {
+	reg(&Rule{ID: "R-C15-encoderparams", Props: []string{"C15", "C12"}, Floor: 1,
+		Doc: "the command's JSON encoder is built with the indentation its caller decided: newEncoder does not assign to its parameters — the priority among --compact-output, --tab and --indent is decided in one place (createMarshaler, R-C15-priority), and a constructor that adjusts the indent for tabs overrides the compact choice made there",
+		Run: ruleEncoderParams})
+	reg(&Rule{ID: "R-C15-haltstring", Props: []string{"C15"}, Floor: 1,
+		Doc: "halt_error with a string writes exactly that string to standard error: on the HaltError path of the command's main loop every newline that is written lies in the branch for values that are not strings",
+		Run: ruleHaltString})
+	addDecided("C15", " newEncoder takes the indentation as given (R-C15-encoderparams); a string given to halt_error is written without a terminator (R-C15-haltstring).")
+}
+
+func ruleEncoderParams(c *Ctx, r *Rep) {
+	p := c.Cli
+	info := p.TypesInfo
+	fd := c.Decl(p, "newEncoder")
+	if fd == nil || fd.Type.Params == nil {
+		r.Undecided("encoderparams:newEncoder", token.NoPos, "not found")
+		return
+	}
+	params := map[types.Object]bool{}
+	for _, f := range fd.Type.Params.List {
+		for _, nm := range f.Names {
+			params[info.Defs[nm]] = true
+		}
+	}
+	bad := ""
+	ast.Inspect(fd.Body, func(m ast.Node) bool {
+		switch x := m.(type) {
+		case *ast.AssignStmt:
+			for _, l := range x.Lhs {
+				if id, ok := unparen(l).(*ast.Ident); ok && params[info.ObjectOf(id)] && x.Tok != token.DEFINE {
+					bad = c.Src(x)
+				}
+			}
+		case *ast.IncDecStmt:
+			if id, ok := unparen(x.X).(*ast.Ident); ok && params[info.ObjectOf(id)] {
+				bad = c.Src(x)
+			}
+		}
+		return true
+	})
+	r.Check(bad == "", "encoderparams:newEncoder", fd.Pos(), "newEncoder uses its parameters as given (reassignment: %q): %v — with `if tab { indent = 1 }` in the constructor, -c together with --tab prints tab-indented multi-line values", bad, bad == "")
+}
+
+func ruleHaltString(c *Ctx, r *Rep) {
+	p := c.Cli
+	info := p.TypesInfo
+	n := 0
+	for _, fd := range c.Decls(p) {
+		ast.Inspect(fd.Body, func(m ast.Node) bool {
+			outer, ok := m.(*ast.IfStmt)
+			if !ok || outer.Init == nil {
+				return true
+			}
+			// if e, ok := e.(*gojq.HaltError); ok { … }
+			ia, ok := outer.Init.(*ast.AssignStmt)
+			if !ok || len(ia.Rhs) != 1 {
+				return true
+			}
+			ta, ok := unparen(ia.Rhs[0]).(*ast.TypeAssertExpr)
+			if !ok || ta.Type == nil || !strings.HasSuffix(types.ExprString(ta.Type), "HaltError") {
+				return true
+			}
+			n++
+			key := "haltstring:" + declKey(fd)
+			// the string branch
+			var strIf *ast.IfStmt
+			ast.Inspect(outer.Body, func(q ast.Node) bool {
+				ifs, ok := q.(*ast.IfStmt)
+				if !ok || ifs.Init == nil || strIf != nil {
+					return true
+				}
+				if a2, ok := ifs.Init.(*ast.AssignStmt); ok && len(a2.Rhs) == 1 {
+					if t2, ok := unparen(a2.Rhs[0]).(*ast.TypeAssertExpr); ok && t2.Type != nil && types.ExprString(t2.Type) == "string" {
+						strIf = ifs
+					}
+				}
+				return true
+			})
+			if strIf == nil {
+				r.Undecided(key, outer.Pos(), "the HaltError path has no branch on the value being a string")
+				return false
+			}
+			// every newline constant on the path lies in the else of that branch
+			stray := token.NoPos
+			ast.Inspect(outer.Body, func(q ast.Node) bool {
+				e, ok := q.(ast.Expr)
+				if !ok {
+					return true
+				}
+				if s, ok := constStrOrRune(info, e); ok && strings.Contains(s, "\n") {
+					inElse := strIf.Else != nil && strIf.Else.Pos() <= e.Pos() && e.End() <= strIf.Else.End()
+					if !inElse {
+						stray = e.Pos()
+					}
+					return false
+				}
+				return true
+			})
+			r.Check(!stray.IsValid(), key, outer.Pos(), "on the HaltError path of %s every newline written lies in the branch for non-string values (stray: %s): %v — `\"bye\" | halt_error(3)` writes exactly bye", declKey(fd), c.Pos(stray), !stray.IsValid())
+			return false
+		})
+	}
+	if n == 0 {
+		r.Undecided("haltstring:census", token.NoPos, "no branch on *gojq.HaltError found in the command")
+	}
 }
